@@ -23,6 +23,7 @@ type Case struct {
 	Xs  []kit.Val `json:"xs"`
 	Pad int       `json:"pad,omitempty"` // the inputs are repeated cyclically up to this buffer length
 	Fix int       `json:"fix,omitempty"` // source construction order, see convtab.Entry.NewBlockFix
+	Ch  int       `json:"ch,omitempty"`  // channel count of the buffers (0 = 1): the values are interleaved over several channels
 }
 
 var Pairs = convtab.Select("FloatAsSigned", "FloatAsUnsigned")
@@ -70,7 +71,7 @@ func Check(c *Case) (res kit.Result) {
 		}
 		xs[i] = v.F
 	}
-	if c.Pad < 0 || c.Pad > 1<<20 || c.Fix < 0 || c.Fix > 2 {
+	if c.Pad < 0 || c.Pad > 1<<20 || c.Fix < 0 || c.Fix > 2 || c.Ch < 0 || c.Ch > 64 {
 		return kit.Result{}
 	}
 	if c.Pad > len(xs) {
@@ -79,9 +80,40 @@ func Check(c *Case) (res kit.Result) {
 	xs = kit.PadFloats(xs, c.Pad)
 	sort.Float64s(xs)
 	out := make([]int64, len(xs))
-	if p, v := kit.Try(func() { e.NewBlockFix(c.Fix)(nil, xs, out, nil) }); p {
+	if p, v := kit.Try(func() { e.NewBlockShape(c.Fix, c.Ch)(nil, xs, out, nil) }); p {
 		res.Failf("%s panicked: %v", e, v)
 		return
+	}
+	// the same inputs in descending order, and each input repeated around out-of-range
+	// inputs (x, +2, x, -Inf, x, 1, x): the code of x must be the same everywhere
+	if len(xs) <= 4096 {
+		n := len(xs)
+		seq := make([]float64, 0, 8*n)
+		for i := n - 1; i >= 0; i-- {
+			seq = append(seq, xs[i])
+		}
+		for _, x := range xs {
+			seq = append(seq, x, 2, x, math.Inf(-1), x, 1, x)
+		}
+		sout := make([]int64, len(seq))
+		if p, v := kit.Try(func() { e.NewBlockShape(c.Fix, c.Ch)(nil, seq, sout, nil) }); p {
+			res.Failf("%s panicked: %v", e, v)
+			return
+		}
+		for i := 0; i < n; i++ {
+			if sout[i] != out[n-1-i] {
+				res.Failf("%s: input %g gives amplitude %d in an ascending buffer but %d in a descending one (preceded by %g)", e, xs[n-1-i], out[n-1-i], sout[i], seq[kit.Max(i-1, 0)])
+				return
+			}
+		}
+		for i, x := range xs {
+			for _, k := range []int{0, 2, 4, 6} {
+				if got := sout[n+7*i+k]; got != out[i] {
+					res.Failf("%s: input %g gives amplitude %d on its own but %d when it follows the input %g in the same buffer", e, x, out[i], got, seq[n+7*i+k-1])
+					return
+				}
+			}
+		}
 	}
 	for i, x := range xs {
 		if m := Point(e, x, out[i]); m != "" {
@@ -115,6 +147,7 @@ func FP(c *Case) uint64 {
 	h.Int(len(c.Xs))
 	h.Int(c.Pad)
 	h.Int(c.Fix)
+	h.Int(c.Ch)
 	for _, v := range c.Xs {
 		h.U64(math.Float64bits(v.F))
 	}
@@ -138,6 +171,7 @@ func Gen(t *rapid.T) *Case {
 	c := &Case{S: e.S.Name, D: e.D.Name}
 	c.Pad = kit.GenPad(t)
 	c.Fix = rapid.IntRange(0, 2).Draw(t, "fix")
+	c.Ch = rapid.SampledFrom([]int{1, 1, 2, 3, 5, 8}).Draw(t, "ch")
 	n := rapid.IntRange(1, 16).Draw(t, "n")
 	is32 := e.S.Bits == 32
 	for i := 0; i < n; i++ {
